@@ -713,12 +713,12 @@ class RequestHandler:
                 raise http.cookies.CookieError(
                     f"Invalid cookie attribute {attr_name}={attr_value!r} for cookie {name!r}"
                 )
-        if not hasattr(self, "_new_cookie"):
-            self._new_cookie: http.cookies.SimpleCookie = http.cookies.SimpleCookie()
-        if name in self._new_cookie:
-            del self._new_cookie[name]
-        self._new_cookie[name] = value
-        morsel = self._new_cookie[name]
+        # Build the new cookie on the side and only store it when it is complete: a call that
+        # raises (for example http.cookies.CookieError for an unknown keyword argument) must not
+        # replace or half-set a cookie that an earlier call has set.
+        new_cookie = http.cookies.SimpleCookie()
+        new_cookie[name] = value
+        morsel = new_cookie[name]
         if domain:
             morsel["domain"] = domain
         if expires_days is not None and not expires:
@@ -751,6 +751,11 @@ class RequestHandler:
                 "(should be lowercase)",
                 DeprecationWarning,
             )
+        if not hasattr(self, "_new_cookie"):
+            self._new_cookie: http.cookies.SimpleCookie = http.cookies.SimpleCookie()
+        if name in self._new_cookie:
+            del self._new_cookie[name]
+        self._new_cookie[name] = morsel
 
     def clear_cookie(self, name: str, **kwargs: Any) -> None:
         """Deletes the cookie with the given name.
